@@ -427,7 +427,8 @@ class FindLoops(BaseAnalysis):
 
     def handler(self, node: pr.LoopT, *args, **kwargs) -> None:
         """Make a (flat) list of the discovered loops."""
-        self.loops.append(node)
+        if isinstance(node, (pr.While, pr.DoWhile, pr.For)):
+            self.loops.append(node)
 
     def DoWhile(self, node: pr.DoWhile, *args, **kwargs):
         self.handler(node, *args, **kwargs)
